@@ -2,7 +2,7 @@
 generates cases, runs legs C and O into the given Check."""
 import os
 import vlib
-from comp.rb import gen
+from comp.rb import gen, srcorder
 
 CASE_NAMES = {
     1: "ins_parent_black", 2: "ins_parent_red", 3: "ins_red_uncle_L", 4: "ins_red_uncle_R",
@@ -90,6 +90,12 @@ def run(c):
     if not okh:
         c.broken.append("rb harness does not compile against the repo: " + hlog[-1500:])
         return False
+    # the pointer-level model claims source order: same sequence of hook assignments / calls per function as rbtree.hpp
+    try:
+        so_ok, so_detail = srcorder.check(os.path.join(vlib.REPO, "include"), os.path.join(vlib.COQ, "Rb", "RbPtr.v"))
+    except Exception as ex:
+        so_ok, so_detail = False, "srcorder raised %r" % (ex,)
+    c.gen_obligation("rb_ptr_source_order (rbtree.hpp vs Rb/RbPtr.v)", so_ok, so_detail)
     thorough = c.tier == "thorough"
     is_raw = lambda ls: bool(ls) and ls[0].split()[:2] == ["cfg", "raw"]
     raw = []
